@@ -30,12 +30,12 @@ META = {
         'only under `not self.raw` and convert() is applied in both modes; C02.DISPATCH - a data row is recognised by the '
         'upper-cased first word; C02.BINARY - text from a file object whose mode contains b is decoded before parsing; '
         'C02.CONT - the continuation-joining pattern tolerates CR (and blanks) between the backslash and the newline; '
-        'C02.COMMENT-FIRST - comment-only lines are discarded before tokenising; C02.INTCONV - integer cells are converted by int() on the token text. C02.PER-INSTANCE - every container that methods fill through self is created per object in __init__ (no class-level mutable shared by all files); C02.TRIM - a line reaches the row/pair patterns trimmed on both sides whatever path trailing_comment takes; C02.CHARLEN - a char[] column without declared width takes the maximum of the value LENGTHS, and the maximum over a table without rows has a default; C02.TOKEN-WS - a bare word is split off with re.split over a whitespace class (blank and tab), maxsplit 1; C02.BINARY also: text/binary is decided without requiring a .mode attribute of the file object. C02.CHAR-EXACT - a column is taken for character data only when its base type equals `char` (no substring test on the type text); C02.BLANK-SKIP - a line holding only blanks, tabs or CR is skipped before it is tokenised (get_token indexes the first character); C02.BRACE-TRIM - the pattern of a brace-wrapped value leaves the blanks after `{` and before `}` outside the captured value; C02.QUOTE-PAIR - what get_token removes from a quoted word is exactly what protect added (no unescaping on one side only); NOT decided: comment/quote parity, '
+        'C02.COMMENT-FIRST - comment-only lines are discarded before tokenising; C02.INTCONV - integer cells are converted by int() on the token text. C02.PER-INSTANCE - every container that methods fill through self is created per object in __init__ (no class-level mutable shared by all files); C02.TRIM - a line reaches the row/pair patterns trimmed on both sides whatever path trailing_comment takes; C02.CHARLEN - a char[] column without declared width takes the maximum of the value LENGTHS, and the maximum over a table without rows has a default; C02.TOKEN-WS - a bare word is split off with re.split over a whitespace class (blank and tab), maxsplit 1; C02.BINARY also: text/binary is decided without requiring a .mode attribute of the file object. C02.CHAR-EXACT - a column is taken for character data only when its base type equals `char` (no substring test on the type text); C02.CACHE-KEY - the per-object memos of type() / isarray() are keyed by table and column separately (nested dictionaries or a tuple), never by the two names glued together; C02.BLANK-SKIP - a line holding only blanks, tabs or CR is skipped before it is tokenised (get_token indexes the first character); C02.BRACE-TRIM - the pattern of a brace-wrapped value leaves the blanks after `{` and before `}` outside the captured value; C02.QUOTE-PAIR - what get_token removes from a quoted word is exactly what protect added (no unescaping on one side only); NOT decided: comment/quote parity, '
         'token splitting, interleaved rows, char[] sizing, CRLF handling beyond the continuation pattern - these are '
         'statements about the language the regex chain accepts.'),
     'floors': {'C02.CHAR-EXACT': 1, 'C02.NAME-EXACT': 1, 'C02.PAT-PAIR': 2, 'C02.ANGLE': 8, 'C02.RAW': 2, 'C02.DISPATCH': 1, 'C02.BINARY': 2,
                'C02.CONT': 1, 'C02.INTCONV': 4, 'C02.COMMENT-FIRST': 1, 'C02.PER-INSTANCE': 2, 'C02.TRIM': 2, 'C02.CHARLEN': 4,
-               'C02.TOKEN-WS': 1, 'C02.BLANK-SKIP': 1, 'C02.BRACE-TRIM': 1, 'C02.QUOTE-PAIR': 1},
+               'C02.TOKEN-WS': 1, 'C02.BLANK-SKIP': 1, 'C02.BRACE-TRIM': 1, 'C02.QUOTE-PAIR': 1, 'C02.CACHE-KEY': 2},
 }
 
 
@@ -790,6 +790,40 @@ def check_char_exact(ctx, yc):
     ctx.need(n >= 1, 'yanny: no test for character columns found')
 
 
+def check_cache_keys(ctx, yc):
+    """C02.CACHE-KEY: a per-object memo that is looked up by (table, column) keeps the two apart - nested dictionaries or a tuple key.
+    A key made by gluing the two names together (`structure + variable`) is shared by SPEC.OBJID and SPECOBJ.ID: whichever is asked
+    first decides the type and array-ness of the other, so what a file means depends on the order of its rows."""
+    n = 0
+    for m, f in sorted(yc.methods.items()):
+        fa = None
+        for sub_ in walk_local(f.node):
+            if not isinstance(sub_, ast.Subscript):
+                continue
+            if fa is None:
+                fa = FA(f)
+            base = sub_.value
+            b = fa.deep(base) if isinstance(base, ast.Name) else base
+            if not (isinstance(b, ast.Attribute) and isinstance(b.value, ast.Name) and b.value.id == 'self' and 'cache' in b.attr):
+                continue
+            k = sub_.slice
+            kd = fa.deep(k) if isinstance(k, ast.Name) else k
+            n += 1
+            glued = None
+            if isinstance(kd, ast.BinOp) and isinstance(kd.op, ast.Add):
+                ops = [kd.left, kd.right]
+                if all(isinstance(o, ast.Name) and o.id in f.params for o in ops):
+                    glued = kd
+            if isinstance(kd, ast.JoinedStr) and sum(1 for v in kd.values if isinstance(v, ast.FormattedValue)) >= 2 and not any(
+                    isinstance(v, ast.Constant) and v.value for v in kd.values):
+                glued = kd
+            ctx.check('C02.CACHE-KEY', glued is None, f, sub_, 'yanny.%s: memo `%s` is keyed by `%s`' % (m, src(base), src(kd)[:40]),
+                      msg='yanny.%s keys the memo `%s` by the names glued together (`%s`): two different (table, column) pairs with the same '
+                          'concatenation share one entry, so the type of a column depends on which table was asked first' % (m, src(b), src(kd)),
+                      construct='glued memo key in %s: %s' % (m, src(kd)))
+    return n
+
+
 def run(ctx):
     repo = ctx.repo
     yc = YannyClass(repo)
@@ -810,6 +844,8 @@ def run(ctx):
     check_blank_skip(ctx, yc)
     check_brace_trim(ctx, yc)
     check_quote_pair(ctx, yc)
+    nk = check_cache_keys(ctx, yc)
+    ctx.need(nk >= 2, 'yanny: the per-object memo lookups were not found')
     ctx.cover(yc.method('protect'))
     ctx.cover(yc.method('trailing_comment'), yc.method('char_length'), yc.method('get_token'))
     # INTCONV shared with C01 (same rule function, reported under C02's rule id)
